@@ -211,7 +211,7 @@ def c16(tier, seed, replay_path=None):
     res = json.load(open(out))
     agg = {"behaviours": res["behaviours"], "steps": res["steps"], "queries": res["queries"], "mismatches": res.get("mismatches") or [],
            "samples": res.get("samples") or [], "crashed": [], "stats": res.get("stats") or {}}
-    if nrows < 150 or res["queries"] < nrows * inst:
+    if nrows < 150 or res["queries"] < (nrows - 2) * inst:
         raise c.Infra("vacuous run: %d rows, %d requests" % (nrows, res["queries"]))
     v = simple_verdict("C16", agg, [r], {"rows": nrows, "instances_per_row": inst, "exhaustive": False,
                        "rule": "the full product of parameter classes per route (ApiErrors.tla, emitted by TLC) x several grammar-generated concrete requests per class, "
